@@ -158,6 +158,7 @@ def check_retry(ctx, fb):
     why = ""
     retries = 0
     form = None
+    start_param = False
     for p in paths:
         opens = p.calls(r"sled::Config::open$|sled::config::Config::open$")
         selfc = p.calls(r"SledDB::new_with_tries$")
@@ -170,7 +171,9 @@ def check_retry(ctx, fb):
             lo, hi = range_var(("unwrap", items[0]))
             form = "loop"
             counter = ("unwrap", items[0])
-            bounded = cint(lo) == 0 and cint(hi) is not None and cint(hi) <= 10
+            # the count starts at 0, or at the counter parameter (which the callers must then pass as 0: checked below)
+            bounded = (cint(lo) == 0 or lo == P(2)) and cint(hi) is not None and cint(hi) <= 10
+            start_param = start_param or lo == P(2)
             if opens and not bounded:
                 ok, why = False, "attempts are counted over %s..%s, specification 0..10" % (sh(lo, 30), sh(hi, 30))
         elif opens:
@@ -212,7 +215,7 @@ def check_retry(ctx, fb):
         for p in e2.run(nw):
             for c in p.calls(r"SledDB::new_with_tries$"):
                 starts.add(c[2][1] if len(c[2]) > 1 else None)
-        want = {None} if form == "loop" else {mk_const("u32", 0)}
+        want = {None} if (form == "loop" and not start_param) else {mk_const("u32", 0)}
         ctx.check(starts == want, "R18-4", "retry starts at 0 (Database::%s)" % nm, "Database::%s opens through new_with_tries starting at attempt 0" % nm,
                   "retry counter starts at %s" % [sh(s, 40) for s in starts], loc(nw))
 
